@@ -266,7 +266,7 @@ func checkC04(c *km.Ctx) {
 								if !ok {
 									continue
 								}
-								got := fc{jsonKeyByName(st, fld), cs}
+								got := fc{jsonKeyByName(v.Type(), fld), cs}
 								if want == nil {
 									if !seenC[got] {
 										seenC[got] = true
@@ -330,7 +330,7 @@ func checkC04(c *km.Ctx) {
 				if !ok || km.NamedTypeOf(base.Type()) != cons.typ {
 					continue
 				}
-				jk := jsonKeyByName(st, fld)
+				jk := jsonKeyByName(cons.alloc.Type(), fld)
 				if jk != "type" && jk != "token_type" {
 					continue
 				}
@@ -643,9 +643,13 @@ func jsonKeyOfField(st *types.Struct, i int) string {
 	return strings.Split(tag, ",")[0]
 }
 
-func jsonKeyByName(st *types.Struct, name string) string {
+func jsonKeyByName(t types.Type, name string) string {
+	st := structOf(t)
+	if st == nil {
+		return ""
+	}
 	for i := 0; i < st.NumFields(); i++ {
-		if st.Field(i).Name() == name {
+		if km.RecordedField(t, st.Field(i).Name()) == name {
 			return jsonKeyOfField(st, i)
 		}
 	}
